@@ -2,8 +2,10 @@ package main
 
 import (
 	"fmt"
+	"sort"
 	"strings"
 
+	"github.com/NethermindEth/juno/core/crypto"
 	"github.com/NethermindEth/juno/core/felt"
 	"github.com/NethermindEth/juno/core/trie"
 	"github.com/NethermindEth/juno/core/trie2"
@@ -232,7 +234,99 @@ func evalCase(c *hx.Ctx, or *hx.Oracle, r *hx.RNG, tc trieCase, sweep bool) []ve
 			}
 		}
 	}
+	sharedSet(c, or, tc, b, mk, hf, fail)
 	return vs
+}
+
+// sharedSet: all keys of the case proven, one after another, into ONE proof set per implementation (the way
+// starknet_getStorageProof and GetRangeProof use Prove). The set must be the union of the per-key sets of the model
+// (C10_prove_complete holds for any superset of a key's own nodes: the walk only looks nodes up by hash), and every
+// key must still verify to its actual value against the shared set.
+func sharedSet(c *hx.Ctx, or *hx.Oracle, tc trieCase, b *built, mk []modelKey, hf crypto.HashFn,
+	fail func(class, what string, noInput bool, extra any)) {
+	if len(tc.Keys) < 2 || b.root.IsZero() {
+		return
+	}
+	p2, p1 := trie2.NewProofNodeSet(), trie.NewProofNodeSet()
+	for _, ks := range tc.Keys {
+		key := hexF(ks)
+		if err := b.t2.Prove(&key, p2); err != nil {
+			fail("trie2-prove-error:shared-set", err.Error(), false, tc)
+			return
+		}
+		if err := b.t1.Prove(&key, p1); err != nil {
+			fail("legacy-prove-error:shared-set", err.Error(), false, tc)
+			return
+		}
+	}
+	s2, err := fromTrie2(p2)
+	if err != nil {
+		fail("model-vs-trie2:prove-node-shape", err.Error(), true, nil)
+		return
+	}
+	s1, err := fromLegacy(p1)
+	if err != nil {
+		fail("model-vs-legacy:prove-node-shape", err.Error(), true, nil)
+		return
+	}
+	union := func(pick func(modelKey) pset) []string {
+		seen := map[string]bool{}
+		var out []string
+		for _, m := range mk {
+			for _, e := range pick(m) {
+				if !seen[e.Key] {
+					seen[e.Key] = true
+					out = append(out, e.Key+"="+e.N.wire())
+				}
+			}
+		}
+		sort.Strings(out)
+		return out
+	}
+	sorted := func(p pset) []string { x := p.strings(false); sort.Strings(x); return x }
+	c.Hist["shared-set:cases"]++
+	if tc.Shape != "" {
+		c.Hist["shared-set:"+tc.Shape]++
+	}
+	dup := len(union(func(m modelKey) pset { return m.s1 }))
+	tot := 0
+	for _, m := range mk {
+		tot += len(m.s1)
+	}
+	if dup < tot {
+		c.Hist["shared-set:keys-share-nodes"]++
+	}
+	if w := union(func(m modelKey) pset { return m.s2 }); !eqStrings(sorted(s2), w) {
+		fail("trie2:shared-proof-set-is-not-the-union", fmt.Sprintf("keys %v proven into one set: trie2 %v, union of the model's per-key sets %v", tc.Keys, sorted(s2), w), false, tc)
+	}
+	if w := union(func(m modelKey) pset { return m.s1 }); !eqStrings(sorted(s1), w) {
+		fail("legacy:shared-proof-set-is-not-the-union", fmt.Sprintf("keys %v proven into one set: legacy %v, union of the model's per-key sets %v", tc.Keys, sorted(s1), w), false, tc)
+	}
+	for _, ks := range tc.Keys {
+		key := hexF(ks)
+		kbits := keyBits(&key, tc.Height)
+		v, err := b.t2.Get(&key)
+		if err != nil {
+			continue
+		}
+		want := "ok " + fhex(&v)
+		c.Evaluations++
+		if got := verifyModel(or, "vw", b.root, kbits, s1, hf); got != want {
+			fail("legacy:shared-set-proof-fails-independent-verifier", fmt.Sprintf("key %s against the set of %v: %s want %s", ks, tc.Keys, got, want), false, tc)
+		}
+		if got := verifyModel(or, "vw", b.root, kbits, s2, hf); got != want {
+			fail("trie2:shared-set-proof-fails-independent-verifier", fmt.Sprintf("key %s against the set of %v: %s want %s", ks, tc.Keys, got, want), false, tc)
+		}
+		if tc.Height != 251 {
+			continue
+		}
+		if g := verify1Go(b.root, key, toLegacy(s1), hf); g != want {
+			fail("legacy:honest-proof-not-verified:shared-set", fmt.Sprintf("key %s against the set of %v: VerifyProof %s want %s", ks, tc.Keys, g, want), false, tc)
+		}
+		if g := verify2Go(b.root, key, toTrie2(s2), hf); g != want {
+			fail("trie2:honest-proof-not-verified:shared-set", fmt.Sprintf("key %s against the set of %v: VerifyProof %s want %s", ks, tc.Keys, g, want), false, tc)
+		}
+	}
 }
 
 var _ = felt.Zero
